@@ -272,9 +272,23 @@ func runCLICase(w *out.W, mu *sync.Mutex, id string, c cliCase) {
 		for _, p := range c.pats {
 			ex = append(ex, fmt.Sprintf("%q", p))
 		}
+		// where the skip policy is written: in the env block; at project level (an env without a diff block
+		// inherits it); at project level with an env-level diff block that holds only a driver-specific
+		// setting and no skip block (Diff.Extend: the skip policy is still inherited)
+		skipBlock := "diff {\n    skip {\n" + strings.Join(sk, "\n") + "\n    }\n  }\n"
+		var project, envDiff string
+		switch place := (len(desc) + len(c.skip)) % 3; place {
+		case 0:
+			envDiff = "  " + skipBlock
+		case 1:
+			project = skipBlock
+		default:
+			project = skipBlock
+			envDiff = "  diff {\n    concurrent_index {\n      create = true\n    }\n  }\n"
+		}
 		os.WriteFile(filepath.Join(dir, "atlas.hcl"), []byte(fmt.Sprintf(
-			"env \"local\" {\n  url = %q\n  src = \"file://schema.hcl\"\n  exclude = [%s]\n  diff {\n    skip {\n%s\n    }\n  }\n}\n",
-			url, strings.Join(ex, ", "), strings.Join(sk, "\n"))), 0o644)
+			"%senv \"local\" {\n  url = %q\n  src = \"file://schema.hcl\"\n  exclude = [%s]\n%s}\n",
+			project, url, strings.Join(ex, ", "), envDiff)), 0o644)
 		plan = clirun.Run(dir, nil, "schema", "apply", "--env", "local", "--dry-run")
 	}
 	var apply clirun.Result
